@@ -15,7 +15,7 @@ export GOFLAGS=-mod=mod GOPROXY=off GOSUMDB=off GOTOOLCHAIN=local GOCACHE=/verif
 VERIF_OVERRIDE_DIR=$T/src VERIF_OVERLAY_DIR=$T/ov VERIF_OVERLAY_JSON=$T/overlay.json python3 /verif/overlay/gen.py
 MAIN=./cmd/zmc; [ -d /verif/mc/cmd/dev-$(echo $ID | tr A-Z a-z) ] && [ -n "$MUT_DEV" ] && MAIN=./cmd/dev-$(echo $ID | tr A-Z a-z)
 (cd /verif/mc && go build -tags verif -overlay $T/overlay.json -o $T/zmc $MAIN) || { echo "MUTANT DOES NOT BUILD"; exit 3; }
-if [ "$ID" = "C14" ] || [ "$ID" = "C05" ]; then (cd /verif/mc && go build -race -tags verif -overlay $T/overlay.json -o $T/zmc-race ./cmd/zmc-race) && export VERIF_RACE_BIN=$T/zmc-race; fi
+if [ "$ID" = "C14" ] || [ "$ID" = "C05" ] || [ "$ID" = "C07" ]; then (cd /verif/mc && go build -race -tags verif -overlay $T/overlay.json -o $T/zmc-race ./cmd/zmc-race) && export VERIF_RACE_BIN=$T/zmc-race; fi
 set +e
 VERIF_OUT_DIR=$T/out $T/zmc $ID $TIER | grep -v "^  " | cut -c1-300
 exit ${PIPESTATUS[0]}
